@@ -142,13 +142,27 @@ func init() {
 			verifier = a.Verifier
 		case "wrong":
 			verifier = "wrong-verifier-0123456789abcdefghijklmnopqrstuvwxyz0123"
+		case "challenge":
+			// the challenge string itself (what the authorization request carried, visible to anyone who saw it)
+			if a.Verifier != "" {
+				sum := sha256.Sum256([]byte(a.Verifier))
+				verifier = base64.RawURLEncoding.EncodeToString(sum[:])
+			}
 		}
 		redirect := a.Redirect
 		if redirect == "" {
 			redirect = vfRedirectFor(st.B, "same")
 		}
-		if opt(st.L, "redirect", "same") == "other" {
+		switch opt(st.L, "redirect", "same") {
+		case "other":
 			redirect = vfRedirectFor(st.B, "other")
+		case "extend":
+			redirect = redirect + "2/other" // begins with the authorized one
+		case "hostsuffix":
+			if u, err := url.Parse(redirect); err == nil {
+				u.Host += ".evil.example.org"
+				redirect = u.String()
+			}
 		}
 		form := url.Values{"grant_type": {"authorization_code"}, "code": {a.Value}, "redirect_uri": {redirect}}
 		if verifier != "" {
@@ -825,11 +839,11 @@ func genTokenPlan(r *rand.Rand, tier, focus string) *vfPlan {
 			if chance(r, 0.12) {
 				art = "last:" + pick(r, kinds)
 			}
-			l := []string{"secret:" + pick(r, []string{"right", "right", "wrong", "absent"}), "verifier:" + pick(r, []string{"absent", "absent", "right", "wrong"}),
-				"redirect:" + pick(r, []string{"same", "same", "same", "other"}), "auth:" + pick(r, []string{"header", "form"})}
+			l := []string{"secret:" + pick(r, []string{"right", "right", "wrong", "absent"}), "verifier:" + pick(r, []string{"absent", "absent", "right", "wrong", "challenge"}),
+				"redirect:" + pick(r, []string{"same", "same", "same", "other", "extend", "hostsuffix"}), "auth:" + pick(r, []string{"header", "form"})}
 			if cl == "clientB" || cl == "clientD" {
 				l[0] = "secret:absent"
-				l[1] = "verifier:" + pick(r, []string{"right", "right", "wrong", "absent"})
+				l[1] = "verifier:" + pick(r, []string{"right", "right", "wrong", "absent", "challenge"})
 			}
 			add(vfStep{Op: "oidc_token", A: art, B: cl, L: l})
 		case x < 55:
